@@ -209,4 +209,23 @@ def cases(seed, tier="quick"):
     out.append(C("c19-unnamed-root-depends-on-same-name", accepted_runs("C19", samename, ["build"], ["root-build", "lib-build"], "an unnamed root's `build` depends on lib::build: two different targets"), "unnamed root, same target name in the import"))
     out.append(C("c19-unnamed-root-output-of-same-name", accepted_runs("C19", samename, ["test"], ["root-test", "lib-build"], "an unnamed root's target takes lib::build.output"), "unnamed root, X.output of a same-named imported target"))
     out.append(C("c19-from-own-dir", accepted_runs("C19", two, ["t"], ["lib-t", "lib-helper"], "from lib's own directory the bare name is lib's target", cwd="lib"), "imported project as root"))
+    # one target referencing equally named targets of different projects (the README's `test_all: [api::test, webapp::test]`)
+    out.append(C("c09-same-name-deps-of-aggregate", accepted_runs(["C09", "C19", "C20"], three, ["all"], ["a-build", "b-build"], "an aggregate over liba::build and libb::build runs both"), "one aggregate over two same-named targets"))
+    fan = {"zinoma.yml": yml({"all": B("all", dependencies=["liba::build", "libb::build", "build"], input=["libb::gen.output", "liba::gen.output"]), "build": B("root-build")}, name="root", imports={"liba": "liba", "libb": "libb"}), "liba/zinoma.yml": yml({"build": B("a-build"), "gen": B("a-gen", output=OUT)}, name="liba"), "libb/zinoma.yml": yml({"build": B("b-build"), "gen": B("b-gen", output=OUT)}, name="libb")}
+    out.append(C("c09-same-name-deps-of-build", accepted_runs(["C09", "C19"], fan, ["all"], ["all", "a-build", "b-build", "root-build", "a-gen", "b-gen"], "a build target depending on three targets called build and taking the output of two targets called gen"), "same-named references of one build target"))
+    for (n, extra, why) in (("unknown", "docs::build", "the second of two same-named references names an unknown project"), ("unknown-target", "libb::nope", "a reference after a same-named pair names an unknown target")):
+        bad = dict(three)
+        bad["zinoma.yml"] = yml({"a": {"dependencies": ["liba::build", extra, "libb::build"]}}, name="root", imports={"liba": "liba", "libb": "libb"})
+        out.append(C("c09-same-name-then-" + n, rejected(["C09", "C14"], bad, [["a"], ["--clean", "a"]], why), why))
+    cyc2 = {"zinoma.yml": yml({"a": B("a", dependencies=["liba::step", "libb::step"])}, name="root", imports={"liba": "liba", "libb": "libb"}), "liba/zinoma.yml": yml({"step": B("a-step")}, name="liba"), "libb/zinoma.yml": yml({"step": B("b-step", dependencies=["root::a"])}, name="libb", imports={"root": ".."})}
+    out.append(C("c09-cycle-through-second-same-name", rejected(["C09", "C14"], cyc2, [["a"], ["libb::step"]], "a cycle closed through the second of two same-named references"), "cycle behind a same-named reference"))
+    # names that differ only by letter case are different names
+    case = {"zinoma.yml": yml({"release": B("root-release"), "Release": B("root-Release"), "RELEASE": B("root-RELEASE", dependencies=["lib::Build"])}, name="app", imports={"lib": "lib"}), "lib/zinoma.yml": yml({"build": B("lib-build"), "Build": B("lib-Build"), "all": {"dependencies": ["build", "Build"]}}, name="lib")}
+    for (n, args, exp) in (("lower", ["release"], ["root-release"]), ("capital", ["Release"], ["root-Release"]), ("qualified-capital", ["app::Release"], ["root-Release"]), ("upper", ["RELEASE"], ["root-RELEASE", "lib-Build"]), ("both", ["release", "Release"], ["root-release", "root-Release"]), ("imported-lower", ["lib::build"], ["lib-build"]), ("imported-capital", ["lib::Build"], ["lib-Build"]), ("imported-both", ["lib::Build", "lib::build"], ["lib-build", "lib-Build"]), ("imported-aggregate", ["lib::all"], ["lib-build", "lib-Build"])):
+        out.append(C("c19-letter-case-" + n, accepted_runs(["C19", "C09"], case, args, exp, "target names differing only by letter case are different targets; the request means exactly the spelling given"), "letter case of names: " + n))
+    out.append(C("c19-letter-case-unknown", rejected(["C19", "C09", "C14"], {"zinoma.yml": yml({"release": B("release"), "a": B("a")}, name="app")}, [["Release"], ["APP::release"], ["app::RELEASE"]], "a request spelled in another letter case names no target"), "a differently cased spelling is an unknown target"))
+    # malformed documents with multi-byte text before the defect
+    for (i, head) in enumerate(("# \u8a2d\u5b9a\n", "# \u00e9\n", "# \U0001f980 x\n", "# \u8a2d\u5b9a\u30d5\u30a1\u30a4\u30eb abc\n", "")):
+        for (n, body) in (("unknown-key", "targets:\n  a:\n    build: echo hi\n    colo\u00fbr: bl\u00e5\n"), ("service-type", "targets:\n  \u00e4:\n    service: [1]\n"), ("truncated", "targets:\n  a:\n    dependencies: [b, \u00e7\n"), ("bad-name", "name: \u043f\u0440\u043e\u0435\u043a\u0442\ntargets:\n  a:\n    build: echo hi\n"), ("tab", "targets:\n\t\u00e9: 1\n")):
+            out.append(C("c14-multibyte-%d-%s" % (i, n), no_panic("C14", {"zinoma.yml": head + body}, [["a"], ["--clean"]], "a malformed document containing multi-byte characters"), "malformed document with non-ASCII text"))
     return out
